@@ -101,7 +101,8 @@ def ULONG_MAX : Nat := U64 - 1
 
 /-- switches for the proposed fixes (props/C25/proposed_fix.diff); `false` = the code as it is now -/
 def fixedHopOrder : Bool := false         -- insert_link_latency keeps the order of a hop's links
-def fixedUnreachableGuard : Bool := false -- a node popped with cost ULONG_MAX is not relaxed from
+def fixedUnreachableGuard : Bool := false -- a node popped with cost ULONG_MAX is not relaxed from; pred_arr starts at
+                                          -- ULONG_MAX ("no predecessor") and the composition throws "No route" on it
 
 structure DEdge where
   src : Nat          -- graph node index
@@ -182,7 +183,7 @@ def dijkstraLoop (g : DGraph) : Nat → DState → Option DState
 def dijkstraPreds (g : DGraph) (fuel src : Nat) : Option (List Nat) :=
   let n := g.nodes.length
   let cost := (List.range n).map fun i => if i = src then 0 else ULONG_MAX
-  let st : DState := { cost := cost, pred := List.replicate n 0, queue := (List.range n).map fun i => (cost.getD i 0, i) }
+  let st : DState := { cost := cost, pred := List.replicate n (if fixedUnreachableGuard then ULONG_MAX else 0), queue := (List.range n).map fun i => (cost.getD i 0, i) }
   (dijkstraLoop g fuel st).map (·.pred)
 
 /-- insert_link_latency(result, links): `result.insert(result.begin(), rbegin(links), rend(links))` -/
@@ -196,6 +197,7 @@ def dijkstraWalk (g : DGraph) (pred : List Nat) (src : Nat) : Nat → Nat → Li
     if v = src then .ok acc
     else
       let p := pred.getD v 0
+      if fixedUnreachableGuard && p = ULONG_MAX then .error .noRoute else
       match g.findEdge p v with
       | none => .error .noRoute
       | some e => dijkstraWalk g pred src f p (insertFront acc e.links)
